@@ -287,6 +287,49 @@ def scalar32_muladd(I, R):
     R.range(w, 0, L25519 - 1, "muladd: result canonical (< L)")
 
 
+# ------------------------------------------------------------------------------------------------ scalar64 (56-bit limbs, Barrett)
+def sc64_in(I, name):
+    hi = [(1 << 56) - 1] * 4 + [(1 << 32) - 1]
+    return AggV([AggV([I.input("%s%d" % (name, i), "u64", 0, hi[i]) for i in range(5)])])
+
+
+def sc64_post(R, o, want, what):
+    his = [(1 << 56) - 1] * 4 + [(1 << 32) - 1]
+    for i in range(5):
+        R.range(o[i].p, 0, his[i], "%s: output limb %d packed (56/56/56/56/32 bits)" % (what, i))
+    v = val(o, 56)
+    R.congruent(v, want, L25519, "%s: result == specification (mod L)" % what)
+    R.range(v, 0, L25519 - 1, "%s: result canonical (< L)" % what)
+
+
+def scalar64_reduce(I, R):
+    bs, v = byte_inputs(I, "s", 64, [56 * k for k in range(1, 10)] + [248 + 56 * k for k in range(0, 5)])
+    f = I.find_fn_re(r"^fn scalar64::<impl at [^>]*>::reduce_from_wide_bytes\(_1: &\[u8; 64\]\)")
+    out = I.run(f, [ref(AggV(bs))])
+    sc64_post(R, out.f[0].f, v, "reduce_from_wide_bytes")
+
+
+def scalar64_add(I, R):
+    a, b = sc64_in(I, "a"), sc64_in(I, "b")
+    va, vb = val(a.f[0].f, 56), val(b.f[0].f, 56)
+    R.assume(va, 0, L25519 - 1, "a reduced")
+    R.assume(vb, 0, L25519 - 1, "b reduced")
+    R_ = R
+    f = I.find_fn_re(r"^fn scalar64::add\(")
+    out = I.run(f, [ref(a), ref(b)])
+    sc64_post(R_, out.f[0].f, va + vb, "add")
+
+
+def scalar64_mul(I, R):
+    a, b = sc64_in(I, "a"), sc64_in(I, "b")
+    va, vb = val(a.f[0].f, 56), val(b.f[0].f, 56)
+    R.assume(va, 0, L25519 - 1, "a reduced")
+    R.assume(vb, 0, L25519 - 1, "b reduced")
+    f = I.find_fn_re(r"^fn scalar64::mul\(")
+    out = I.run(f, [ref(a), ref(b)])
+    sc64_post(R, out.f[0].f, va * vb, "mul")
+
+
 SPECS = {
     "poly1305_block": dict(prop=["C05", "C20"], fn=poly1305_block(False), desc="Poly1305::block, full block (hibit set)"),
     "poly1305_block_final": dict(prop=["C05", "C20"], fn=poly1305_block(True), desc="Poly1305::block, final partial block (hibit clear)"),
@@ -300,6 +343,9 @@ SPECS = {
     "fe64_to_packed": dict(prop=["C15", "C12", "C20"], cfg="fe64", fn=fe64_to_packed(LOOSE), desc="Fe::to_packed (canonical encoding) for every limb vector in class LOOSE"),
     "fe64_from_bytes": dict(prop=["C15", "C12", "C20"], cfg="fe64", fn=fe64_from_bytes, desc="Fe::from_bytes"),
     "fe64_mul_small_121666": dict(prop=["C15", "C12", "C20"], cfg="fe64", fn=fe64_unop("mul_small", r"\(_1: &fe64::Fe\)", "mul121666"), desc="Fe::mul_small::<121666>", generic={"S0": (121666, "u32")}),
+    "scalar64_reduce": dict(prop=["C13", "C15"], cfg="fe64", fn=scalar64_reduce, desc="scalar64 reduce_from_wide_bytes == x mod L, all 2^512 inputs", experimental=True),
+    "scalar64_add": dict(prop=["C13", "C15"], cfg="fe64", fn=scalar64_add, desc="scalar64 add == a + b mod L, canonical, for all reduced operands"),
+    "scalar64_mul": dict(prop=["C13", "C15"], cfg="fe64", fn=scalar64_mul, desc="scalar64 mul == a * b mod L for packed limbs", experimental=True),
     # ---- 32-bit backend (MIR dumped with --features force-32bits)
     "fe32_add": dict(prop=["C17"], cfg="fe32", fn=fe32_binop("add", r"\(_1: &fe32::Fe, _2: &fe32::Fe\)", "add", T32, L32), desc="fe32 &Fe + &Fe (TIGHT operands -> LOOSE)"),
     "fe32_sub": dict(prop=["C17"], cfg="fe32", fn=fe32_binop("sub", r"\(_1: &fe32::Fe, _2: &fe32::Fe\)", "sub", T32, L32), desc="fe32 &Fe - &Fe (TIGHT operands -> LOOSE)"),
